@@ -550,7 +550,7 @@ def emit_fn(data, it, ckey, C, tlog, anchors_used, canary=False):
     if eff_names or pass_names or C.flag(ckey, "effects_sig"):
         if not f["inputs"]:
             raise Undecided("T17: %s has no parameters" % it["path"])
-        ed.insert(f["inputs"][-1]["end"], ", Tracked(vx_log): Tracked<&mut VxLog>", order=-2)
+        ed.insert(f["inputs"][-1]["end"], ", Tracked(vx_log): Tracked<&mut VxLog>" + (", Tracked(vx_replies): Tracked<&mut VxReplies>" if C.flag(ckey, "replies") else ""), order=-2)
         nw = npass = nrep = 0
         reply_names = set(x for fl in C.flag(ckey, "replies") for x in fl)
         for c in f.get("calls", []):
@@ -563,7 +563,8 @@ def emit_fn(data, it, ckey, C, tlog, anchors_used, canary=False):
                     raise Undecided("T17: `%s` call with %d arguments in %s" % (c["name"], len(c["args"]), it["path"]))
                 a = c["args"][0]
                 recv = data[c["recv"]["start"]:c["recv"]["end"]].decode() if c.get("recv") else ""
-                if not re.match(r"^[A-Za-z_][A-Za-z0-9_]*(\s*\.\s*[A-Za-z_][A-Za-z0-9_]*)*$", recv):
+                # a plain place expression, optionally followed by pure accessors (`.as_ref().unwrap()`, `.clone()`)
+                if not re.match(r"^[A-Za-z_][A-Za-z0-9_]*(\s*\.\s*[A-Za-z_][A-Za-z0-9_]*)*(\s*\.\s*(as_ref|unwrap|clone)\s*\(\s*\))*$", recv):
                     # the receiver is named twice in the rewritten call, so it must be a plain place expression
                     raise Undecided("unsupported construct: receiver `%s` of effectful call `%s` in %s is not a plain path" % (recv[:60], c["name"], it["path"]))
                 ed.insert(a["start"], "vx_note(&%s, " % re.sub(r"\s+", "", recv), order=-2)
@@ -576,7 +577,7 @@ def emit_fn(data, it, ckey, C, tlog, anchors_used, canary=False):
                     if len(aw) != 1:
                         raise Undecided("T17: the `%s` call of %s whose reply is to be logged is not awaited directly" % (c["name"], it["path"]))
                     ed.insert(aw[0]["start"], "vx_reply(", order=-4)
-                    ed.insert(aw[0]["end"], ", Tracked(vx_log))", order=-4)
+                    ed.insert(aw[0]["end"], ", Tracked(vx_replies))", order=-4)
                     nrep += 1
             elif c["name"] in pass_names:
                 if not c["args"]:
